@@ -1,0 +1,173 @@
+//go:build verif
+
+package dagjson
+
+// Contracts for govc (see /verif/DESIGN.md §5 C04). Comment-only; compiled only
+// under the build tag "verif".
+//
+// The canonical DAG-JSON token stream (the oracle, written from the DAG-JSON
+// rules in the statement of C04, not from the code), over the same position
+// functions ctype/cstr/... as the DAG-CBOR one (codec/dagcbor): jEnc(v, at)
+// says that the canonical encoding of v starts at position at. A map is
+// TMapOpen(n), its entries in bytewise key order (jskey/jsval), TMapClose; a
+// list TArrOpen(n), elements, TArrClose; bytes are {"/": {"bytes": <base64>}}
+// (7 tokens); a link is {"/": <cid text>} (4 tokens); an int is a TInt token, a
+// float a TFloat64 token, and so on: the kind of every scalar is visible in its
+// token type.
+
+//@ pure func jEnc(v datamodel.Val, at mathint) bool
+//@ pure func jtsize(v datamodel.Val) mathint
+//@ pure func jmoff(v datamodel.Val, j mathint) mathint
+//@ pure func jloff(v datamodel.Val, j mathint) mathint
+//@ pure func jskey(v datamodel.Val, j mathint) string
+//@ pure func jsval(v datamodel.Val, j mathint) datamodel.Val
+
+//@ axiom jtsize_scalar: forall v datamodel.Val :: !datamodel.isrec(v) && datamodel.vkind(v) != datamodel.Kind_Bytes && datamodel.vkind(v) != datamodel.Kind_Link ==> jtsize(v) == 1
+//@ axiom jtsize_bytes: forall v datamodel.Val :: datamodel.vkind(v) == datamodel.Kind_Bytes ==> jtsize(v) == 7
+//@ axiom jtsize_link: forall v datamodel.Val :: datamodel.vkind(v) == datamodel.Kind_Link ==> jtsize(v) == 4
+//@ axiom jtsize_map: forall v datamodel.Val :: datamodel.vkind(v) == datamodel.Kind_Map ==> jtsize(v) == jmoff(v, datamodel.vlen(v)) + 1
+//@ axiom jtsize_list: forall v datamodel.Val :: datamodel.vkind(v) == datamodel.Kind_List ==> jtsize(v) == jloff(v, datamodel.vlen(v)) + 1
+//@ axiom jmoff_0: forall v datamodel.Val :: jmoff(v, 0) == 1
+//@ axiom jmoff_step: forall v datamodel.Val, j mathint :: 0 <= j && j < datamodel.vlen(v) ==> jmoff(v, j+1) == jmoff(v, j) + 1 + jtsize(jsval(v, j))
+//@ axiom jloff_0: forall v datamodel.Val :: jloff(v, 0) == 1
+//@ axiom jloff_step: forall v datamodel.Val, j mathint :: 0 <= j && j < datamodel.vlen(v) ==> jloff(v, j+1) == jloff(v, j) + jtsize(datamodel.vchild(v, j))
+
+//@ axiom jenc_null: forall v datamodel.Val, at mathint :: jEnc(v, at) && datamodel.vkind(v) == datamodel.Kind_Null ==> dagcbor.ctype(at) == tok.TNull && !dagcbor.ctagged(at)
+//@ axiom jenc_bool: forall v datamodel.Val, at mathint :: jEnc(v, at) && datamodel.vkind(v) == datamodel.Kind_Bool ==> dagcbor.ctype(at) == tok.TBool && !dagcbor.ctagged(at) && dagcbor.cbool(at) == datamodel.vbool(v)
+//@ axiom jenc_int: forall v datamodel.Val, at mathint :: jEnc(v, at) && datamodel.vkind(v) == datamodel.Kind_Int ==> dagcbor.ctype(at) == tok.TInt && !dagcbor.ctagged(at) && dagcbor.cint(at) == datamodel.vint(v)
+//@ axiom jenc_float: forall v datamodel.Val, at mathint :: jEnc(v, at) && datamodel.vkind(v) == datamodel.Kind_Float ==> dagcbor.ctype(at) == tok.TFloat64 && !dagcbor.ctagged(at) && dagcbor.cfloat(at) == datamodel.vfloat(v)
+//@ axiom jenc_string: forall v datamodel.Val, at mathint :: jEnc(v, at) && datamodel.vkind(v) == datamodel.Kind_String ==> dagcbor.ctype(at) == tok.TString && !dagcbor.ctagged(at) && dagcbor.cstr(at) == datamodel.vstr(v)
+//@ axiom jenc_bytes: forall v datamodel.Val, at mathint :: jEnc(v, at) && datamodel.vkind(v) == datamodel.Kind_Bytes ==>
+//@        dagcbor.ctype(at) == tok.TMapOpen && !dagcbor.ctagged(at) && dagcbor.clen(at) == 1
+//@        && dagcbor.ctype(at + 1) == tok.TString && !dagcbor.ctagged(at + 1) && dagcbor.cstr(at + 1) == "/"
+//@        && dagcbor.ctype(at + 2) == tok.TMapOpen && !dagcbor.ctagged(at + 2) && dagcbor.clen(at + 2) == 1
+//@        && dagcbor.ctype(at + 3) == tok.TString && !dagcbor.ctagged(at + 3) && dagcbor.cstr(at + 3) == "bytes"
+//@        && dagcbor.ctype(at + 4) == tok.TString && !dagcbor.ctagged(at + 4) && dagcbor.cstr(at + 4) == base64.b64raw(datamodel.vbytes(v))
+//@        && dagcbor.ctype(at + 5) == tok.TMapClose && !dagcbor.ctagged(at + 5)
+//@        && dagcbor.ctype(at + 6) == tok.TMapClose && !dagcbor.ctagged(at + 6)
+//@ axiom jenc_link: forall v datamodel.Val, at mathint :: jEnc(v, at) && datamodel.vkind(v) == datamodel.Kind_Link ==>
+//@        dagcbor.ctype(at) == tok.TMapOpen && !dagcbor.ctagged(at) && dagcbor.clen(at) == 1
+//@        && dagcbor.ctype(at + 1) == tok.TString && !dagcbor.ctagged(at + 1) && dagcbor.cstr(at + 1) == "/"
+//@        && dagcbor.ctype(at + 2) == tok.TString && !dagcbor.ctagged(at + 2) && dagcbor.cstr(at + 2) == cid.cidtext(dagcbor.cidbytes(datamodel.vlink(v)))
+//@        && dagcbor.ctype(at + 3) == tok.TMapClose && !dagcbor.ctagged(at + 3)
+//@ axiom jenc_list: forall v datamodel.Val, at mathint :: jEnc(v, at) && datamodel.vkind(v) == datamodel.Kind_List ==> dagcbor.ctype(at) == tok.TArrOpen && !dagcbor.ctagged(at) && dagcbor.clen(at) == datamodel.vlen(v)
+//@        && dagcbor.ctype(at + jloff(v, datamodel.vlen(v))) == tok.TArrClose && !dagcbor.ctagged(at + jloff(v, datamodel.vlen(v)))
+//@ axiom jenc_list_elem: forall v datamodel.Val, at mathint, j mathint :: jEnc(v, at) && datamodel.vkind(v) == datamodel.Kind_List && 0 <= j && j < datamodel.vlen(v) ==> jEnc(datamodel.vchild(v, j), at + jloff(v, j))
+//@ axiom jenc_map: forall v datamodel.Val, at mathint :: jEnc(v, at) && datamodel.vkind(v) == datamodel.Kind_Map ==> dagcbor.ctype(at) == tok.TMapOpen && !dagcbor.ctagged(at) && dagcbor.clen(at) == datamodel.vlen(v)
+//@        && dagcbor.ctype(at + jmoff(v, datamodel.vlen(v))) == tok.TMapClose && !dagcbor.ctagged(at + jmoff(v, datamodel.vlen(v)))
+//@ axiom jenc_map_entry: forall v datamodel.Val, at mathint, j mathint :: jEnc(v, at) && datamodel.vkind(v) == datamodel.Kind_Map && 0 <= j && j < datamodel.vlen(v) ==>
+//@        dagcbor.ctype(at + jmoff(v, j)) == tok.TString && !dagcbor.ctagged(at + jmoff(v, j)) && dagcbor.cstr(at + jmoff(v, j)) == jskey(v, j) && jEnc(jsval(v, j), at + jmoff(v, j) + 1)
+
+// The comparator is the strict bytewise order on keys (so the emitted order does not depend on
+// the order the node yields its entries in: jskey/jsval are a function of the value alone).
+//@ func Marshal$1(i, j) (r)
+//@   requires 0 <= i && i < len(entries) && 0 <= j && j < len(entries)
+//@   assigns nothing
+//@   ensures[C04] r == (entries[i].key < entries[j].key)
+
+//@ func Marshal(n, sink, options) (err)
+//@   requires n != nil && sink != nil
+//@   requires options.EncodeLinks && options.EncodeBytes && options.MapSortMode == codec.MapSortMode_Lexical
+//@   requires jEnc(n.val, sink.pos)
+//@   assigns sink.pos
+//@   ensures[C04] err == nil ==> sink.pos == old(sink.pos) + jtsize(n.val)
+//@   loop 0 assigns entries, itr.pos
+//@   loop 0 invariant itr != nil && itr.src == n.val && len(entries) == itr.pos && sink.pos == old(sink.pos) + 1
+//@   loop 0 invariant fresh(entries) && root(entries) != root(&entries) && root(entries) != root(&tk) && !tk.Tagged
+//@   loop 0 invariant forall j mathint :: 0 <= j && j < len(entries) ==> entries[j].key == datamodel.vkeystr(n.val, j) && entries[j].value != nil && entries[j].value.val == datamodel.vchild(n.val, j)
+//@   after sort.Slice with Marshal$1 assume
+//@        (forall j mathint :: 0 <= j && j < len(entries) ==> old(entries[j].key) == datamodel.vkeystr(n.val, j) && old(entries[j].value.val) == datamodel.vchild(n.val, j) && old(entries[j].value) != nil)
+//@        && len(entries) == datamodel.vlen(n.val)
+//@        ==> (forall j mathint :: 0 <= j && j < len(entries) ==> entries[j].key == jskey(n.val, j) && entries[j].value.val == jsval(n.val, j) && entries[j].value != nil)
+//@   loop 1 assigns tk, sink.pos
+//@   loop 1 invariant 0 - 1 <= rangeindex && rangeindex + 1 <= len(entries) && entryCount == rangeindex + 1 && sink.pos == old(sink.pos) + jmoff(n.val, rangeindex + 1) && !tk.Tagged
+//@   loop 3 assigns tk, sink.pos
+//@   loop 3 invariant 0 <= i && i <= l && l == datamodel.vlen(n.val) && sink.pos == old(sink.pos) + jloff(n.val, i) && !tk.Tagged
+
+// ---- decoding: token -> assembler call preserves the kind; the reserved forms are recognised by
+//      bounded look-ahead and nothing else is turned into a link or into bytes ----
+
+//@ pred validtok(t tok.Token) = t.Type == tok.TMapOpen || t.Type == tok.TMapClose || t.Type == tok.TArrOpen || t.Type == tok.TArrClose || t.Type == tok.TNull || t.Type == tok.TString || t.Type == tok.TBytes || t.Type == tok.TBool || t.Type == tok.TInt || t.Type == tok.TUint || t.Type == tok.TFloat64
+
+// buffered: slots 1..shift hold tokens read ahead from the source (all of them real tokens).
+//@ pred buffered(st *unmarshalState) = 0 <= st.shift && st.shift <= 6 && (forall j mathint :: 1 <= j && j <= st.shift ==> validtok(st.tk[j]))
+
+// step: with nothing buffered the next token comes from the source; otherwise the buffer slides
+// down by one, in order, and nothing is read.
+//@ func (*unmarshalState).step(tokSrc) (err)
+//@   requires st != nil && tokSrc != nil && buffered(st)
+//@   assigns st.tk, st.shift, tokSrc.rd.pos
+//@   ensures[C04] err == nil ==> buffered(st) && validtok(st.tk[0])
+//@   ensures[C04] old(st.shift) == 0 ==> st.shift == 0 && (err == nil ==> validtok(st.tk[0]))
+//@   ensures[C04] old(st.shift) > 0 ==> err == nil && st.shift == old(st.shift) - 1 && tokSrc.rd.pos == old(tokSrc.rd.pos)
+//@   ensures[C04] forall j mathint :: 0 <= j && j < old(st.shift) ==> st.tk[j] == old(st.tk[j+1])
+//@   ensures[C04] forall j mathint :: old(st.shift) < j && j <= 6 ==> st.tk[j] == old(st.tk[j])
+
+// ensure: look-ahead tokens are fetched one at a time, in order, each into its own slot.
+//@ func (*unmarshalState).ensure(tokSrc, lookahead) (err)
+//@   requires st != nil && tokSrc != nil && 1 <= lookahead && lookahead <= 6 && buffered(st) && st.shift >= lookahead - 1
+//@   assigns st.tk[lookahead], st.shift, tokSrc.rd.pos
+//@   ensures[C04] err == nil ==> buffered(st)
+//@   ensures[C04] err == nil ==> st.shift == (old(st.shift) < lookahead ? lookahead : old(st.shift))
+//@   ensures[C04] err == nil && old(st.shift) < lookahead ==> validtok(st.tk[lookahead])
+//@   ensures[C04] old(st.shift) >= lookahead ==> err == nil && st.tk[lookahead] == old(st.tk[lookahead]) && tokSrc.rd.pos == old(tokSrc.rd.pos)
+
+//@ func (*unmarshalState).linkLookahead(na, tokSrc) (ok, err)
+//@   requires st != nil && na != nil && tokSrc != nil && buffered(st) && st.tk[0].Type == tok.TMapOpen
+//@   assigns foreign, datamodel.slot(na), st.tk[1], st.tk[2], st.tk[3], st.shift, tokSrc.rd.pos
+//@   ensures[C04] err == nil ==> buffered(st)
+//   a link is assigned exactly for {"/": <string>} and it is the CID that string decodes to
+//@   after Decode let decoded = result0
+//@   before AssignLink assert[C04] st.tk[1].Type == tok.TString && st.tk[1].Str == "/" && st.tk[2].Type == tok.TString && st.tk[3].Type == tok.TMapClose && st.shift >= 3
+//@   before AssignLink assert[C04] dyntype(carg1, "cidlink.Link") && unbox(carg1, "cidlink.Link").Cid == decoded
+//@   before Decode assert[C04] carg0 == st.tk[2].Str
+//@   ensures[C04] err == nil && ok ==> st.shift == 0
+//@   ensures[C04] err == nil && !ok ==> st.tk[0] == old(st.tk[0]) && 1 <= st.shift && st.shift <= 6
+//@   ensures[C04] err == nil && !ok ==> !(st.tk[1].Type == tok.TString && st.tk[1].Str == "/" && st.shift >= 3 && st.tk[2].Type == tok.TString && st.tk[3].Type == tok.TMapClose)
+//@   ensures[C04] forall j mathint :: 1 <= j && j <= old(st.shift) && j <= 6 ==> st.tk[j] == old(st.tk[j]) || (err == nil && ok)
+
+//@ func (*unmarshalState).bytesLookahead(na, tokSrc) (ok, err)
+//@   requires st != nil && na != nil && tokSrc != nil && buffered(st) && st.tk[0].Type == tok.TMapOpen
+//@   assigns foreign, datamodel.slot(na), st.tk[1], st.tk[2], st.tk[3], st.tk[4], st.tk[5], st.tk[6], st.shift, tokSrc.rd.pos
+//@   ensures[C04] err == nil ==> buffered(st)
+//   bytes are assigned exactly for {"/": {"bytes": <string>}} and they are what that string decodes to
+//@   before AssignBytes assert[C04] st.tk[1].Type == tok.TString && st.tk[1].Str == "/" && st.tk[2].Type == tok.TMapOpen && st.tk[3].Type == tok.TString && st.tk[3].Str == "bytes" && st.tk[4].Type == tok.TString && st.tk[5].Type == tok.TMapClose && st.tk[6].Type == tok.TMapClose && st.shift == 6
+//@   before AssignBytes assert[C04] carg1 == elBytes
+//@   before DecodeString assert[C04] carg1 == st.tk[4].Str
+//@   ensures[C04] err == nil && ok ==> st.shift == 0
+//@   ensures[C04] err == nil && !ok ==> st.tk[0] == old(st.tk[0]) && 1 <= st.shift && st.shift <= 6
+//@   ensures[C04] forall j mathint :: 1 <= j && j <= old(st.shift) && j <= 6 ==> st.tk[j] == old(st.tk[j]) || (err == nil && ok)
+
+//@ func (*unmarshalState).unmarshal(na, tokSrc, depth) (err)
+//@   requires st != nil && na != nil && tokSrc != nil && buffered(st) && depth >= 0 && validtok(st.tk[0])
+//@   assigns foreign, datamodel.slot(na), st.tk, st.shift, tokSrc.rd.pos
+//   every scalar token becomes the assign call of its own kind, with its own value
+//@   before AssignNull assert[C04] st.tk[0].Type == tok.TNull
+//@   before AssignBool assert[C04] st.tk[0].Type == tok.TBool && carg1 == st.tk[0].Bool
+//@   before AssignInt assert[C04] (st.tk[0].Type == tok.TInt && carg1 == st.tk[0].Int) || st.tk[0].Type == tok.TUint
+//@   before AssignFloat assert[C04] st.tk[0].Type == tok.TFloat64 && carg1 == st.tk[0].Float64
+//@   before AssignString assert[C04] st.tk[0].Type == tok.TString && carg1 == st.tk[0].Str
+//@   before AssembleEntry assert[C04] st.tk[0].Type == tok.TString && carg1 == st.tk[0].Str
+//@   before BeginMap assert[C04] st.tk[0].Type == tok.TMapOpen
+//@   before BeginList assert[C04] st.tk[0].Type == tok.TArrOpen
+//@   before linkLookahead assert[C04] st.options.ParseLinks
+//@   before bytesLookahead assert[C04] st.options.ParseBytes
+//@   before unmarshal assert[C04] carg3 == depth + 1
+//@   ensures[C04] err == nil ==> buffered(st)
+//@   loop 0 assigns foreign, ma.acc, ma.pend, ma.haskey, st.tk, st.shift, tokSrc.rd.pos
+//@   loop 0 invariant ma != nil && buffered(st)
+//@   loop 1 assigns foreign, la.acc, st.tk, st.shift, tokSrc.rd.pos
+//@   loop 1 invariant la != nil && buffered(st)
+
+// ---- the registered codec: links and bytes in their reserved forms, keys sorted bytewise ----
+//@ func Encode(n, w) (err)
+//@   requires n != nil && w != nil
+//@   before Encode assert[C04] carg0.EncodeLinks && carg0.EncodeBytes && carg0.MapSortMode == codec.MapSortMode_Lexical
+// (The canonical stream is positioned so that the root value's encoding starts where the fresh
+// encoder stands: a definition, stated as an explicit assumption.)
+//@ func (EncodeOptions).Encode(n, w) (err)
+//@   requires n != nil && w != nil && cfg.EncodeLinks && cfg.EncodeBytes && cfg.MapSortMode == codec.MapSortMode_Lexical
+//@   after NewEncoder assume jEnc(n.val, iface(result0, "shared.TokenSink").pos)
+//@   before Marshal assert[C04] carg2 == cfg && carg0 == n
+//@ func Decode(na, r) (err)
+//@   before Decode assert[C04] carg0.ParseLinks && carg0.ParseBytes
